@@ -336,7 +336,10 @@ TEXT = {
   "design_ref": "§3 C15",
   "note": "Only the handler logic is proved. Survival on arbitrary bytes, allocation inside rlp, goroutine hygiene and liveness are "
           "differential testing against the total model, not proof; the rlpx frame reader and the discovery packet decoder have "
-          "monitor-only mutation streams, no theorem. Findings "
+          "monitor-only mutation streams, no theorem (incl. the re-sealed families: inner bytes mutated first, hash/signature/MACs "
+          "recomputed with the sender's key, codec under recover and a live ListenUDP node that must keep answering). Liveness is a "
+          "monitor: after every refused account block / momentum delivery the insert lock is free, an honest peer's block reaches "
+          "the pool, an honest request is answered and the node produces its next momentum (class=stalled-*). Findings "
           "F7a (unknown hash panicked) and F7b (Number+Amount<=1 returned the whole chain) are fixed in d85e958 and 99f2642; their "
           "inputs are sent on every run and a recurrence is reported as a violation.",
   "technique": "Lean 4 proof (omega/case analysis) + regenerated constants and AST facts + differential correspondence over p2p.MsgPipe",
@@ -352,7 +355,11 @@ TEXT = {
           "returned indices) "
           "and a differential stream feeding followers through the real InsertChain.",
   "design_ref": "§3 C16",
-  "note": "Verification itself (verifier/*, vm) is an oracle here. Known finding F7d (rollback before verification) is open; "
+  "note": "Verification itself (verifier/*, vm) is an oracle here; the account-block side is monitored model-free: one account block of "
+          "a delivered momentum altered by type and position (30 mutations), after every delivery the node's chain and its pool of "
+          "unconfirmed blocks hold only the producer's bytes, and the genuine version of a refused batch is adopted next. "
+          "Known finding F7d (rollback before verification) is open (and F9, owned by C13, is visible here as a pooled user block "
+          "with an altered ChangesHash); "
           "F7c (panics on empty / non-linking-by-height batches) was fixed in 264f72a, F7e (stale-parent momentum silently dropped "
           "and reported as success) in 9a5065f.",
   "technique": "Lean 4 proof (induction over the batch) + AST facts + differential correspondence on real nodes + model-free monitors",
